@@ -234,6 +234,37 @@ func (w *walker) explore(prefix []int, sigs []uint64) {
 		return
 	}
 	s, r := w.run(verifmc.Options{Prefix: prefix, Sigs: sigs, MaxSteps: w.j.MaxSteps}, w.j.Param)
+	if !w.account(s, r, prefix) {
+		return
+	}
+	base := devs(prefix)
+	if base+1 > w.j.Bound {
+		return
+	}
+	n := len(s.Trace)
+	choices := make([]int, n)
+	gs := make([]uint64, n)
+	alts := make([]int, n)
+	for i, p := range s.Trace {
+		choices[i], gs[i], alts[i] = p.Chosen, p.Sig, p.N
+	}
+	for i := len(prefix); i < n; i++ {
+		for alt := 1; alt < alts[i]; alt++ {
+			np := make([]int, i+1)
+			copy(np, choices[:i])
+			np[i] = alt
+			w.explore(np, gs[:i+1])
+			if w.cut {
+				return
+			}
+		}
+	}
+}
+
+
+// account books one execution; it returns false when nothing must be explored
+// below it (failure, divergence, cut).
+func (w *walker) account(s *verifmc.Sched, r *Result, prefix []int) bool {
 	st := w.st
 	st.Executions++
 	st.byDev[devs(prefix)]++
@@ -245,7 +276,7 @@ func (w *walker) explore(prefix []int, sigs []uint64) {
 	if s.Diverged {
 		st.Errors = append(st.Errors, fmt.Sprintf("NONDETERMINISM: scenario %s: prefix %v diverged: %s", w.j.Scenario, prefix, s.Failure))
 		w.cut = true
-		return
+		return false
 	}
 	if strings.HasPrefix(s.Failure, "horizon") {
 		st.HorizonHits++
@@ -271,7 +302,7 @@ func (w *walker) explore(prefix []int, sigs []uint64) {
 		if herr != "" {
 			st.Errors = append(st.Errors, herr)
 			w.cut = true
-			return
+			return false
 		}
 		k := v.Key + "|" + firstLine(v.Failure)
 		if !w.seenViol[k] {
@@ -281,30 +312,9 @@ func (w *walker) explore(prefix []int, sigs []uint64) {
 		if len(st.Violations) >= w.j.MaxViol {
 			w.cut = true
 		}
-		return // do not branch below a failing execution
+		return false // do not branch below a failing execution
 	}
-	base := devs(prefix)
-	if base+1 > w.j.Bound {
-		return
-	}
-	n := len(s.Trace)
-	choices := make([]int, n)
-	gs := make([]uint64, n)
-	alts := make([]int, n)
-	for i, p := range s.Trace {
-		choices[i], gs[i], alts[i] = p.Chosen, p.Sig, p.N
-	}
-	for i := len(prefix); i < n; i++ {
-		for alt := 1; alt < alts[i]; alt++ {
-			np := make([]int, i+1)
-			copy(np, choices[:i])
-			np[i] = alt
-			w.explore(np, gs[:i+1])
-			if w.cut {
-				return
-			}
-		}
-	}
+	return true
 }
 
 func firstLine(s string) string {
@@ -540,11 +550,11 @@ func Explore(cfg Config) *Stats {
 			total.Exhaustive = false
 		}
 	} else {
-		// level 0 here, every level-1 subtree is a job
+		// level 0 (the default execution, already run above as s0/r0) is accounted
+		// here; every level-1 subtree is a job for the workers
 		w := &walker{run: run, j: job{Scenario: cfg.Scenario, Param: cfg.Param, Bound: 0, MaxSteps: maxSteps, MaxViol: 3}, st: newStats(), seenViol: map[string]bool{}}
-		w.explore(nil, nil)
+		w.account(s0, r0, nil)
 		total.merge(w.st)
-		_ = r0
 		if len(w.st.Violations) == 0 && len(w.st.Errors) == 0 {
 			var jobs []job
 			for i, p := range s0.Trace {
